@@ -43,10 +43,13 @@ type cliGen struct {
 	groups   []string
 	nextTag  int
 	streams  []*cliStream
-	tags     []int        // submitted, not yet received
+	tags     []int // submitted, not yet received
 	goneAway bool
-	dead     bool // the connection has been cut, closed or broken on purpose
-	kind     string
+	// GOAWAY frames sent so far and the last stream id of the latest one
+	goAways    int
+	lastGoAway int64
+	dead       bool // the connection has been cut, closed or broken on purpose
+	kind       string
 }
 
 func (g *cliGen) do(ev *cliEvent) {
@@ -474,6 +477,22 @@ func (g *cliGen) goAway() {
 	if f.dep > int64(maxSid) && r.chance(50) {
 		f.dep = int64(maxSid)
 	}
+	if g.goAways == 0 && g.kind == "goaway" && r.chance(40) {
+		// RFC 7540 6.8: a graceful shutdown starts with 2^31-1 and names the real last stream later
+		f.dep = 1<<31 - 1
+	}
+	if g.goAways > 0 {
+		// a later GOAWAY may only lower the last stream id
+		f.dep = int64(r.pick(0, 1, 3, maxSid, maxSid-2, maxSid))
+		if f.dep < 0 {
+			f.dep = 0
+		}
+		if f.dep > g.lastGoAway {
+			f.dep = g.lastGoAway
+		}
+	}
+	g.goAways++
+	g.lastGoAway = f.dep
 	f.code = uint32(r.pick(0, 0, 0, 2, 11))
 	g.frame(f, lit([]byte("bye")[:r.intn(4)]))
 	g.goneAway = true
@@ -631,6 +650,14 @@ func (g *cliGen) fault() {
 		g.dead = true
 	case 2:
 		g.do(&cliEvent{kind: "X"})
+		// the next things written fail: a request's HEADERS (streamed bodies included), a frame of an upload
+		for i := r.intn(3); i > 0; i-- {
+			if r.chance(70) {
+				g.submit()
+			} else {
+				g.grant()
+			}
+		}
 	case 3, 4:
 		g.do(&cliEvent{kind: "C"})
 		g.dead = true
@@ -782,6 +809,16 @@ func (c *genctx) genClientScenario(kind string) (string, string) {
 			g.submit()
 		}
 	}
+	if kind == "races" && r.chance(25) {
+		// the transport starts refusing writes with requests still to come
+		if r.chance(50) {
+			g.submit()
+		}
+		g.do(&cliEvent{kind: "X"})
+		for i := 1 + r.intn(2); i > 0; i-- {
+			g.submit()
+		}
+	}
 	for i := 0; i < steps && !g.run.hung; i++ {
 		if !g.dead && g.run.conn.Closed() {
 			g.dead = true
@@ -800,7 +837,7 @@ func (c *genctx) genClientScenario(kind string) (string, string) {
 			g.receiveSome()
 		case a < 84:
 			g.noise()
-		case a < 88 && (kind == "goaway" || r.chance(10)) && !g.goneAway:
+		case a < 88 && (kind == "goaway" || r.chance(10)) && (!g.goneAway || (g.goAways < 2 && g.lastGoAway > 0)):
 			g.goAway()
 		case a < 91 && (kind != "good" || r.chance(20)):
 			g.reset()
